@@ -473,7 +473,9 @@ def FromTable (cs : Bool) (f : Field) : Prop :=
   (∃ w c, f = .prim w c) ∨
     ∃ r ∈ Gen.CArrayKinds.rows, (r.isVarr = true → r.cs = cs) ∧ ∃ lp eb cap usr, usr ≤ cap ∧ r.field lp eb cap usr = some f
 
-theorem okCmp_of_fromTable {cs : Bool} {f : Field} (h : FromTable cs f) : okCmp cs f = true := by
+/-- every field built from a row of the generated table — any widths, any DSDL capacity, any user capacity not above it —
+    has length comparisons that protect the array as it is dimensioned -/
+theorem C04_c_generated_array_kinds_comparisons_protect {cs : Bool} {f : Field} (h : FromTable cs f) : okCmp cs f = true := by
   rcases h with ⟨w, c, rfl⟩ | ⟨r, hr, hcs, lp, eb, cap, usr, hu, hf⟩
   · rfl
   · have hs : r.safe = true := List.all_eq_true.mp C04_c_array_kinds_table_safe r hr
@@ -490,7 +492,7 @@ theorem okCmp_of_fromTable {cs : Bool} {f : Field} (h : FromTable cs f) : okCmp 
     outside the object.  Precondition: the user capacity does not exceed the DSDL capacity. -/
 theorem C04_c_generated_array_kinds_never_leave_object (cs : Bool) (m : Msg) (hm : ∀ f ∈ m.fields, FromTable cs f) :
     (∀ checkCap o capBytes, (ser checkCap cs m o capBytes).isOobObject = false) ∧ (∀ rd, (de cs rd m).isOob = false) := by
-  have hc : ∀ f ∈ m.fields, okCmp cs f = true := fun f hf => okCmp_of_fromTable (hm f hf)
+  have hc : ∀ f ∈ m.fields, okCmp cs f = true := fun f hf => C04_c_generated_array_kinds_comparisons_protect (hm f hf)
   refine ⟨?_, fun rd => C04_c_deserialize_in_bounds cs rd m hc⟩
   intro checkCap o capBytes
   unfold ser
@@ -573,7 +575,8 @@ def Out.documented : Out → Prop
   | .err e => (e.macroName, e.code) ∈ Gen.ErrorCodes.c
   | _ => False
 
-theorem documented_of_exit {r : Out} (h : r.isExit = true) : Out.documented r := by
+/-- an outcome that is a return (not a memory fault, not a layout mismatch) is success or a code of the generated table -/
+theorem C04_c_every_exit_documented {r : Out} (h : r.isExit = true) : Out.documented r := by
   cases r with
   | ok n => trivial
   | err e => exact (C04_model_error_codes_documented e).1
@@ -587,7 +590,7 @@ theorem C04_c_serialize_total (objNull bufNull sizeNull cs : Bool) (m : Msg) (o 
   unfold serApi
   split
   · exact (C04_model_error_codes_documented .invalidArgument).1
-  · exact documented_of_exit (Out.isExit_of (C04_c_serialize_in_bounds cs m o capBytes hno) (ser_notShape true cs m o capBytes hfit))
+  · exact C04_c_every_exit_documented (Out.isExit_of (C04_c_serialize_in_bounds cs m o capBytes hno) (ser_notShape true cs m o capBytes hfit))
 
 /-- TOTALITY, serializer, override option with the capacity check compiled out: the same under the user's obligation. -/
 theorem C04_c_serialize_override_total (objNull bufNull sizeNull : Bool) (m : Msg) (o : MObj) (capBytes : Nat)
@@ -596,7 +599,7 @@ theorem C04_c_serialize_override_total (objNull bufNull sizeNull : Bool) (m : Ms
   unfold serApi
   split
   · exact (C04_model_error_codes_documented .invalidArgument).1
-  · exact documented_of_exit (Out.isExit_of (C04_c_serialize_override_buffer_condition m o capBytes hb hbuf) (ser_notShape false true m o capBytes hfit))
+  · exact C04_c_every_exit_documented (Out.isExit_of (C04_c_serialize_override_buffer_condition m o capBytes hb hbuf) (ser_notShape false true m o capBytes hfit))
 
 /-- TOTALITY, deserializer: every buffer content and size (0 and a `NULL` buffer included), every combination of `NULL`
     arguments: success or a documented code. -/
@@ -605,7 +608,7 @@ theorem C04_c_deserialize_total (objNull bufNull sizeNull cs : Bool) (sizeBytes 
   unfold deApi
   split
   · exact (C04_model_error_codes_documented .invalidArgument).1
-  · exact documented_of_exit (Out.isExit_of (C04_c_deserialize_in_bounds cs rd m h) (de_notShape cs rd m))
+  · exact C04_c_every_exit_documented (Out.isExit_of (C04_c_deserialize_in_bounds cs rd m h) (de_notShape cs rd m))
 
 /-- non-vacuity: each documented outcome of the model is reached -/
 example : serApi true false false true false sOv (.struct [.prim, .count 1, .prim]) 64 = .err .invalidArgument := by decide
